@@ -298,7 +298,7 @@ def job(args):
            f"after the explicit step the input variable is {'still flagged dirty' if still_dirty else 'flagged clean'}; its cached boundary row mentions "
            f"{sorted(n for n in names if n in ('bc', 'stale'))}; ghost values {'current' if ghosts_ok else 'stale'} "
            "(invariant: clean flags imply current cache and ghosts - the returned variable shares the flag object and clears it)", fe.loc())
-    return dict(obs=obs, units=sorted(units), samples=samples)
+    return dict(obs=obs, units=sorted(units), samples=samples, funcs=sorted(w.interp.funcs_seen))
 
 
 def F_sl():
@@ -374,3 +374,16 @@ def finalize(sm, rep, tier, results):
     rep.floor('solvePDE flag valuations', sum(1 for o in rep.obs if o['rule'] == 'P4'), 12)
     rep.samples.append(dict(rule='P4', scenario='cache holds the boundary system of a stale coefficient set; BCs.modified=True; solvePDE([linearSourceTerm]) -> rows handed to the solver must mention only the current coefficient atoms'))
     rep.notes.append('P6 is decided by C04.S7 and P8 by C14.O4/O6 (same interpreter, not repeated here)')
+    rep.floor('apply_BCs flag valuations', len({o['construct'] for o in rep.obs if o['rule'] == 'P5'}), 10)
+    # positive controls: the storage-sharing machinery must see a view, and a store through it must be attributed to the owner
+    from ..arrays import Ctx, const_arr
+    from ..interp import Interp
+    from .c14 import boxes_of
+    it = Interp(sm, Ctx())
+    owner = Box(const_arr((Rat.const(3),), ZERO))
+    owner.frozen = 'owner'
+    view = it.instantiate('TrackedArray', [owner])
+    rep.control('P8u sees the storage shared by TrackedArray(x) and x', ('box', owner.id) in boxes_of(view))
+    it.events.clear()
+    it.store_subscript(view, (Rat.const(0),), ONE, None)
+    rep.control('a store through a view is attributed to the owner', any(e[0] == 'input-mutated' and e[1] == 'owner' for e in it.events))
